@@ -6,10 +6,12 @@ package util
 // KillAndEvictPods with a recording / failing EvictionExecutor. Judged by c11Judge (judge_test.go) from the inputs.
 
 import (
+	"encoding/json"
 	"fmt"
 	"hash/fnv"
 	"sort"
 	"strconv"
+	"strings"
 	"testing"
 
 	corev1 "k8s.io/api/core/v1"
@@ -257,18 +259,20 @@ func c11KScenarios(env *mc.Env) []c11KScenario {
 	for n := 1; n <= env.Pick(3, 4); n++ {
 		s = append(s, c11KScenario{name: fmt.Sprintf("1task-2dim-n%d", n), n: n, alpha: req2, tasks: []c11KTmpl{Q2}, absent: true})
 	}
-	for n := 1; n <= env.Pick(3, 4); n++ {
-		a := used(0, 1, 3)
-		if n == 4 {
-			a = used(0, 1)
-		}
-		s = append(s, c11KScenario{name: fmt.Sprintf("2task-same-n%d", n), n: n, alpha: a, tasks: []c11KTmpl{U, U}})
+	for n := 1; n <= 3; n++ {
+		s = append(s, c11KScenario{name: fmt.Sprintf("2task-same-n%d", n), n: n, alpha: used(0, 1, 3), tasks: []c11KTmpl{U, U}})
 	}
 	for n := 1; n <= env.Pick(2, 3); n++ {
-		s = append(s, c11KScenario{name: fmt.Sprintf("2task-used+request-n%d", n), n: n, alpha: cross, tasks: []c11KTmpl{U, Q}})
-		s = append(s, c11KScenario{name: fmt.Sprintf("2task-request+used-n%d", n), n: n, alpha: cross, tasks: []c11KTmpl{Q, U}})
-		s = append(s, c11KScenario{name: fmt.Sprintf("2task-request-a+ab-n%d", n), n: n, alpha: req2s, tasks: []c11KTmpl{Q, Q2}})
-		s = append(s, c11KScenario{name: fmt.Sprintf("2task-request-a+b-n%d", n), n: n, alpha: req2s, tasks: []c11KTmpl{Q, QB}})
+		cr, r2 := cross, req2s
+		if n == 3 {
+			// three pods under two tasks of different kind: reduced contribution alphabets
+			cr = []c11KPod{{{0, 0}, {0, 0}}, {{1, 0}, {0, 0}}, {{0, 0}, {2, 0}}, {{1, 0}, {2, 0}}}
+			r2 = []c11KPod{{{0, 0}, {0, 0}}, {{0, 0}, {1, 0}}, {{0, 0}, {0, 1}}, {{0, 0}, {2, 1}}}
+		}
+		s = append(s, c11KScenario{name: fmt.Sprintf("2task-used+request-n%d", n), n: n, alpha: cr, tasks: []c11KTmpl{U, Q}})
+		s = append(s, c11KScenario{name: fmt.Sprintf("2task-request+used-n%d", n), n: n, alpha: cr, tasks: []c11KTmpl{Q, U}})
+		s = append(s, c11KScenario{name: fmt.Sprintf("2task-request-a+ab-n%d", n), n: n, alpha: r2, tasks: []c11KTmpl{Q, Q2}})
+		s = append(s, c11KScenario{name: fmt.Sprintf("2task-request-a+b-n%d", n), n: n, alpha: r2, tasks: []c11KTmpl{Q, QB}})
 	}
 	sort.SliceStable(s, func(i, j int) bool { return s[i].n < s[j].n }) // small pod sets first: they always complete
 	return s
@@ -287,17 +291,28 @@ func c11KDigest(c *c11KCase, ev []c11Event) uint64 {
 func TestVerifC11Kill(t *testing.T) {
 	env := mc.LoadEnv()
 	{
-		var c c11KCase
-		if _, ok := env.ReplayData(&c); ok {
-			ex, ret, newly, ps := c11KRun(&c, c11KMakePods(len(c.Pods)))
-			fmt.Printf("REPLAY case=%v\n events=%+v\n returned=%v newlyEvicted=%v panic=%q\n", c, ex.events, ret, newly, ps)
-			for _, f := range c11KJudge(&c, ex, ret, func(string, int64) {}) {
-				fmt.Printf(" FINDING %s: %s\n", f.Clause, f.What)
+		var raw map[string]json.RawMessage
+		if part, ok := env.ReplayData(&raw); ok {
+			// every unit receives the replay file; only the unit that produced it re-executes the case
+			res := mc.NewResult("C11", "kill-replay", "faults")
+			res.Exhaustive = true
+			if strings.HasPrefix(part, "kill-") {
+				var c c11KCase
+				env.ReplayData(&c)
+				ex, ret, newly, ps := c11KRun(&c, c11KMakePods(len(c.Pods)))
+				fmt.Printf("REPLAY case=%v\n events=%+v\n returned=%v newlyEvicted=%v panic=%q\n", c, ex.events, ret, newly, ps)
+				res.Evaluations = 1
+				for _, f := range c11KJudge(&c, ex, ret, func(string, int64) {}) {
+					fmt.Printf(" FINDING %s: %s\n", f.Clause, f.What)
+					res.Violate(mc.Violation{Key: "C11|kill|" + f.Clause, What: f.What + "; case " + c.String(), Replay: c})
+				}
 			}
+			env.Emit(res)
 			return
 		}
 	}
 	scenarios := c11KScenarios(env)
+	var emitted []*mc.Result
 	for si, sc := range scenarios {
 		sc := sc
 		penv := c11PartEnv(env, len(scenarios)-si)
@@ -443,5 +458,7 @@ func TestVerifC11Kill(t *testing.T) {
 			res.Diag(fmt.Sprintf("%d task runs ended with the target not covered although an untried candidate would free something of it (not a violation: the statement bounds eviction from above only)", n))
 		}
 		env.Emit(res)
+		emitted = append(emitted, res)
 	}
+	c11Vacuity(env, "kill", emitted, c11RoundVacuity)
 }
